@@ -119,6 +119,10 @@ func (g *c07gen) list(depth int, guarded bool) *Ty {
 // GenIfaceC07 draws a description tree in the C07 domain.
 func GenIfaceC07(t *rapid.T, maxMembers int, opts C07Opts) *Iface {
 	i := &Iface{Name: genInterfaceName(t)}
+	if rapid.IntRange(0, 7).Draw(t, "toolword") == 0 {
+		// a last word the go tool would read as a file-name constraint if it survived into the file name after an underscore
+		i.Name += "-" + rapid.SampledFrom([]string{"test", "windows", "linux", "darwin", "amd64", "arm64", "386", "js", "wasm", "unix"}).Draw(t, "toolwordv")
+	}
 	i.DocMode = "none"
 	if rapid.Bool().Draw(t, "idoc") {
 		i.DocMode, i.Doc = "block", genDocLinesC07(t)
